@@ -75,6 +75,8 @@ class SendingMessage:
         self.seq = seq
         self.serializer_id = serializer_id
         annotations = annotations or {}
+        # sizes are byte counts: a memoryview over multi-byte items has fewer items than bytes
+        annotations = {k: (v.cast("B") if isinstance(v, memoryview) and v.itemsize != 1 else v) for k, v in annotations.items()}
         annotations_size = sum([8 + len(v) for v in annotations.values()])
         flags &= ~FLAGS_COMPRESSED
         if config.COMPRESSION and len(payload) > 100:
